@@ -75,6 +75,17 @@ CHECKS['C17'] = dict(
          'bytes inside [data, data+length).',
     note='Trusted: clang + LLVM unroll/GVN/simplifycfg passes (semantics preserving), irdump, checks/gf2.py, absint. A routine '
          'whose bit loop LLVM cannot unroll is reported as analysis-broken, not as held.')
+CHECKS['C18'] = dict(
+    category='other', design_ref='DESIGN.md 5/C18',
+    technique='abstract interpretation (closed forms of the hex digit maps, buffer bounds), IR dataflow for byte lanes, GF(2) bit-vector domain for the base64 bit regrouping, constant alphabet agreement',
+    text='hex: half2hex/hex2half/hex2byte equal their closed forms on every digit class and hex2half(half2hex(n)) == n for all '
+         'nibbles (proved for all values), hexascii_encode/decode stay inside their buffers, uintN_to_hex and hex_to_uintN use the '
+         'same byte-lane order (MSB first, high nibble first). base64: alphabet constant == RFC 4648, the alphabet index of every '
+         'output character (full group and both padded tails) and the 4-sextet -> 3-byte regrouping equal the RFC 4648 bit '
+         'slices for all inputs, url-safe variant applies inverse character maps around the matching codec. Output length and '
+         'whole-string equality with a reference are not decided.',
+    note='Trusted: clang/LLVM lowering and unrolling, irdump, absint, gf2. Little-endian target. std::string is not analysed '
+         '(calls are opaque); sextets are assumed < 64 because only alphabet characters reach the regrouping.')
 NA_REASON = 'check not built yet (work in progress; see DESIGN.md section 9)'
 
 m = {"version": 1,
